@@ -88,4 +88,10 @@ PROPS = {
         "level_text": "Machine-checked Lean 4 theorems: for all 52 x 52 pairs of real cards word order is (rank, suit) lexicographic order and every card is above blank; for EVERY list of words of any length the sort output is a permutation of the input, non-increasing, idempotent, of the same length, and is the unique list with those properties (so the copying and in-place forms, and any correct sorting algorithm, agree).",
         "level_note": "Trusts: Lean kernel; that the crate's card words are the layout words (C10); core's sort_unstable + reverse modelled as the non-increasing rearrangement and compared with the crate on all arrangements/multisets of a small alphabet and seeded arbitrary-word hands of every size.",
     },
+    "C17": {
+        "technique": "Lean 4 kernel evaluation over all 52 x 51 ordered pairs of the model (regenerated rank/suit/points graphs + hand-modelled formula) against a specification of the Chen formula in exact half-points",
+        "level_text": "Machine-checked Lean 4 theorem: for ALL ordered pairs of distinct real cards the model's chen_formula equals Spec.chenSpec (high-card points, pair doubling with minimum 5, gap penalties 0/1/2/4/5, +1 for a 0/1-gap below a queen, +2 suited, round half up), get_gap / is_connector / is_pocket_pair / is_suited / is_suited_connector / high_card equal their definitions, and the score is invariant under swapping the slots and under suit shifting; per-card points for all 52 cards. The property's domain is finite and is covered completely by both the theorem and the correspondence.",
+        "level_note": "Trusts: Lean kernel; Spec/Chen.lean; rustc; extractor (get_chen_points graph, recorded doubled and checked to be exact multiples of 0.5); f32 arithmetic on multiples of 0.5 of small magnitude is exact and ceil(p/2) = floor((p+1)/2) (assumption, checked by comparing integer results on all 53 x 53 slot pairs).",
+        "assumptions": ["IEEE f32 is exact on the multiples of 0.5 in [-5, 22] the formula can produce"],
+    },
 }
